@@ -12,11 +12,24 @@ pub fn surface_msg(yz: u32, xz: u32, odd: bool) -> SurfacePosition {
 }
 
 fn decode(surface: bool, yz: u32, xz: u32, odd: bool, rlat: f64, rlon: f64) -> Result<Option<Position>, (String, String)> {
+    // One message in four has been through a decoder before (as in decode_position, which writes the result into the
+    // message, or a file decoded in two passes): its position fields already hold the outcome of a decode against a
+    // reference on the other side of the globe. The result may depend on the CPR counts and the reference only.
+    let h = (yz as u64).wrapping_mul(0x9E37_79B9).wrapping_add(xz as u64) ^ rlat.to_bits();
+    let stale = if h % 4 == 0 { Some((-rlat * 0.5 + 7.0, crate::oracle::geo::wrap180(rlon + 171.0))) } else { None };
     if surface {
-        let m = surface_msg(yz, xz, odd);
+        let mut m = surface_msg(yz, xz, odd);
+        if let Some((la, lo)) = stale {
+            m.latitude = Some(la);
+            m.longitude = Some(lo);
+        }
         guarded(|| surface_position_with_reference(&m, rlat, rlon))
     } else {
-        let m = airborne_msg(yz, xz, odd);
+        let mut m = airborne_msg(yz, xz, odd);
+        if let Some((la, lo)) = stale {
+            m.latitude = Some(la);
+            m.longitude = Some(lo);
+        }
         guarded(|| airborne_position_with_reference(&m, rlat, rlon))
     }
 }
@@ -165,7 +178,7 @@ fn far_reference(r: &mut Report, rng: &mut Rng, surface: bool, st: &mut Stats) {
 }
 
 pub fn run(a: &Args, r: &mut Report) {
-    r.rule = "in range: true point -> independent encoder (one parity) -> real *_position_with_reference with the reference displaced by a random bearing and <= 0.95 x range (180 NM / 45 NM) -> within 10 m; any reference: arbitrary CPR counts with references incl. +-0, subnormal, 1e3..1e300, zone edges, poles, +-180 -> absent, or within half a zone of the reference and |lat| <= 90. distinct = distinct (cpr, reference) cases with a correct verdict".into();
+    r.rule = "in range: true point -> independent encoder (one parity) -> real *_position_with_reference with the reference displaced by a random bearing and <= 0.95 x range (180 NM / 45 NM) -> within 10 m; any reference: arbitrary CPR counts with references incl. +-0, subnormal, 1e3..1e300, zone edges, poles, +-180 -> absent, or within half a zone of the reference and |lat| <= 90. distinct = distinct (cpr, reference) cases with a correct verdict One message in four carries position fields already filled in by an earlier decode against a reference on the other side of the globe: the result may depend on the CPR counts and the reference only.".into();
     r.assumptions.push("in-range additionally requires the reference to be within 0.95 x half a zone in each coordinate (only active near the poles where a zone is narrower than the nominal range)".into());
     let mut st = Stats { tr: geo::transitions(), ..Default::default() };
     let mut rng = Rng::new(a.seed, a.shard, "C05");
